@@ -39,6 +39,8 @@ def check(ctx: Ctx):
         if f.rule in ("FRAME", "FLOW", "MERGE", "THRESH", "GUARDSHAPE", "CONNECT", "METRIC"):
             ctx.findings.append(f)
     ctx.functions |= sub2.functions
+    spectrum.check_accumulator_dtype(ctx, ("droplets.image_analysis.get_structure_factor", "droplets.image_analysis.get_length_scale"))
+    ctx.expect("DTYPE", 2)
     ctx.expect("FRAME", 4)
     ctx.expect("MERGE", 6)
     ctx.expect("THRESH", 5)
